@@ -18,4 +18,18 @@ type ReplayFile struct {
 	Program   *Program `json:"program"`
 	Original  *Program `json:"original_program,omitempty"`
 	Notes     []string `json:"notes,omitempty"`
+	// Warmup is set when the violation only reproduces after the runs the
+	// same worker process executed before it (the library kept state across
+	// calls for the life-time of the process): the replay regenerates and
+	// executes Count runs From, From+Stride, ... first.
+	Warmup *Warmup `json:"warmup,omitempty"`
+}
+
+// Warmup identifies the runs a worker executed before the recorded one.
+type Warmup struct {
+	Profile string `json:"profile"`
+	Seed    uint64 `json:"seed"`
+	From    uint64 `json:"from"`
+	Stride  uint64 `json:"stride"`
+	Count   int    `json:"count"`
 }
